@@ -13,11 +13,14 @@ SEEDED = os.path.join(HERE, "seeded")
 
 
 def para(text, heads, limit):
+    """text of the first section whose heading (## heading, **bold:** or **bold.**) starts with one of `heads`"""
     for h in heads:
-        m = re.search(r"\*\*" + h + r"[^*]*\*\*:?(.*?)(?:\n\s*\n\*\*|\n#|\Z)", text, re.S | re.I)
-        if m:
-            t = " ".join(m.group(1).split())
-            return (t[:limit] + " ...") if len(t) > limit else t
+        for pat in (r"^#+\s*" + h + r"[^\n]*\n(.*?)(?=^#|\Z)",
+                    r"\*\*" + h + r"[^*]*\*\*:?(.*?)(?=\n\s*\n\*\*|\n#|\Z)"):
+            m = re.search(pat, text, re.S | re.I | re.M)
+            if m and m.group(1).strip():
+                t = " ".join(m.group(1).split()).replace("|", "/")
+                return (t[:limit] + " ...") if len(t) > limit else t
     return ""
 
 
@@ -55,8 +58,8 @@ def do_import(staging, logs):
             meta = json.load(open(meta_path)) if os.path.exists(meta_path) else {}
             meta.update({
                 "id": sid, "property": pid, "files": files,
-                "change": (title + ". " + para(notes, ["Change", "What changed", "What", "Where"], 420)).strip(),
-                "needs": para(notes, ["What is needed", "What it needs", "Trigger", "Needed"], 520),
+                "change": (title + ". " + para(notes, ["Change", "What changed", "What was changed", "What", "Where"], 420)).strip().replace("|", "/"),
+                "needs": para(notes, ["What is needed", "What it needs", "What is required", "Trigger", "Needed", "Needs"], 520),
                 "author": "fresh sub-agent given only the property text and a scratch worktree of /repo",
                 "confirmed": (f"by me in a scratch worktree: `pytest tests` with the patch -> {tests.split(',')[0]}, {tests.split(',')[1].strip()} "
                               f"(the 1 failure is the baseline's known test_axes_to_rotator_invert); demo.py exit {dc} on the unchanged tree, exit {dp} with the patch"),
